@@ -110,13 +110,12 @@ class SymIntDict:
         c = cur()
         idx = as_int(k)
         vv = SymNum.lift(v)
-        if c.decide(idx == self.size):
-            self.arr = z3.Store(self.arr, idx, vv.t)
-            self.size = self.size + 1
-        elif c.decide(z3.And(idx >= 0, idx < self.size)):
-            self.arr = z3.Store(self.arr, idx, vv.t)
-        else:
-            raise EngineError("SymIntDict: insertion of a key other than the next integer")
+        # the container model covers insertion of the next integer key only; that the code
+        # does exactly this is an obligation, after which it is assumed
+        c.oblige("container-model/dict-filled-with-consecutive-integer-keys", idx == self.size, meta={"unbounded": True})
+        c.assume(idx == self.size)
+        self.arr = z3.Store(self.arr, idx, vv.t)
+        self.size = self.size + 1
 
     def values(self):
         return _Values(self)
@@ -194,6 +193,8 @@ def sym_len2(x):
 
 
 LOOP_REBINDS = {"enumerate": sym_enumerate, "list": sym_list, "len": sym_len2}
+from .symrt import TYPE_ALIASES  # noqa: E402
+TYPE_ALIASES[sym_list] = list
 
 
 # ---- the cut itself
@@ -223,6 +224,15 @@ def default_havoc(name, old, lc):
     raise EngineError(f"cannot havoc {name} of type {type(old).__name__}")
 
 
+def _normalise(v):
+    """native empty containers at loop entry become their symbolic counterparts"""
+    if isinstance(v, list) and not v:
+        return SymList(None, length=z3.IntVal(0))
+    if isinstance(v, dict) and not v:
+        return SymIntDict()
+    return v
+
+
 class LoopCut:
     _count = 0
 
@@ -231,7 +241,7 @@ class LoopCut:
         self.key = key
         self.iterable = iterable
         self.spec = spec
-        self.entry = dict(state)
+        self.entry = {k: _normalise(v) for k, v in state.items()}
         self.n = seq_len(iterable)
         self.k = None
         self._fresh = 0
